@@ -109,7 +109,9 @@ fn cases(tier: Tier) -> &'static Vec<Case> {
         // history family: EVERY pipeline of 2..3 (thorough: 4) requests drawn from a small
         // per-request alphabet, so that the decision for one request is exercised after
         // every kind of predecessor (a persistence decision must not depend on history)
-        const ATOMS: [(&str, Option<&str>); 8] = [
+        const ATOMS: [(&str, Option<&str>); 10] = [
+            ("2.0", None),
+            ("2.0", Some("close")),
             ("1.1", None),
             ("1.1", Some("keep-alive")),
             ("1.1", Some("close")),
@@ -209,7 +211,7 @@ impl Check for C12 {
     }
     fn rule(&self, tier: Tier) -> String {
         format!(
-            "version {{1.0, 1.1}} x Connection header {:?} at every position of a pipeline of 1..{} requests x following bytes {{nothing, a further complete request, garbage}} x client half-closing afterwards or not x application answering immediately or on a later signal; {} conversations; token-based reference model: requests after the connection-ending one are never delivered, the client sees exactly the answers of the received requests then end-of-stream; otherwise the connection stays open; after a client half-close everything received is answered, then end-of-stream || history family: EVERY pipeline of 2..{} requests over 8 (version, Connection) atoms {{1.1 absent/keep-alive/close, 1.0 absent/keep-alive/'Keep-Alive, foo'/te/close}} x the same following bytes x half-close or not (the decision for a request is exercised after every kind of predecessor)",
+            "version {{1.0, 1.1}} x Connection header {:?} at every position of a pipeline of 1..{} requests x following bytes {{nothing, a further complete request, garbage}} x client half-closing afterwards or not x application answering immediately or on a later signal; {} conversations; token-based reference model: requests after the connection-ending one are never delivered, the client sees exactly the answers of the received requests then end-of-stream; otherwise the connection stays open; after a client half-close everything received is answered, then end-of-stream || history family: EVERY pipeline of 2..{} requests over 10 (version, Connection) atoms {{2.0 absent/close (refused with 505, the connection goes on), 1.1 absent/keep-alive/close, 1.0 absent/keep-alive/'Keep-Alive, foo'/te/close}} x the same following bytes x half-close or not (the decision for a request is exercised after every kind of predecessor)",
             CONN_VALUES, if deep(tier) { 4 } else { 3 }, cases(tier).len(), if deep(tier) { 4 } else { 3 }
         )
     }
